@@ -71,6 +71,10 @@ Qed.
 Theorem inline_outline_holds s c j : wf_convb s c = true -> canon_json s c = Ok j -> inline_outline_at s c.
 Proof. intros W E. unfold inline_outline_at. rewrite E. cbn [bind]. exact (inline_outline s c j W E). Qed.
 
+(* the statement as DESIGN.md has it (bind form), for every well-formed CAS *)
+Theorem inline_outline_at_wf s c : wf_convb s c = true -> inline_outline_at s c.
+Proof. intros W. destruct (canon_json_total s c W) as (j & E). exact (inline_outline_holds s c j W E). Qed.
+
 Lemma wf_convb_parts s c : wf_convb s c = true ->
   Xmi.wf_inb s c = true /\ XmiLoad.schema_okb s = true /\ wf_jsonb s c = true /\ ids_distinctb s c = true /\
   refs_wfb s c = true /\ slots_declb s (c_heap c) = true.
